@@ -541,7 +541,7 @@ type e2eMsg struct {
 }
 
 type e2eResult struct {
-	Overlapping int `json:"overlapping_attempts"`
+	Overlapping int           `json:"overlapping_attempts"`
 	Scenario    string        `json:"scenario"`
 	Messages    int           `json:"messages"`
 	Requests    int           `json:"requests"`
